@@ -38,7 +38,29 @@ def _jl(v):
     return int(round(float(v)))
 
 
-def dump(dt, names, kind, prefer_order=True, trace=False):
+def decode_settings(x):
+    import verif_probes_c07 as vp
+
+    if np.isnan(x) or x < 0 or x != int(x):
+        return None
+    d = vp.decode(int(x))
+    if d is None or any(isinstance(e, list) for e in d):
+        return None
+    return d
+
+
+def extras(arr, n, trace):
+    """the columns after the n parameter columns: execution trace [, detector settings]"""
+    out = []
+    tr = decode_trace(arr[n])
+    out.append(tr if tr is not None else [-88])
+    if trace > 1:
+        st = decode_settings(arr[n + 1])
+        out.append(st if st is not None else [-88])
+    return out
+
+
+def dump(dt, names, kind, prefer_order=True, trace=0):
     """-> (shape, cells) ; cell = dict(label=[...], data=[...]|None, mem=int)"""
     import verif_probes_c07 as vp
 
@@ -70,7 +92,7 @@ def dump(dt, names, kind, prefer_order=True, trace=False):
             label = [-97] + label[1:]
         if kind == "encs":
             # one column per parameter: column k = code of the value parameter k's model instance received
-            if arr.size != len(names) + (1 if trace else 0) or np.isnan(arr).any() or np.isnan(sig).any():
+            if arr.size != len(names) + trace or np.isnan(arr).any() or np.isnan(sig).any():
                 data, mem = None, -1
             else:
                 data = []
@@ -80,8 +102,8 @@ def dump(dt, names, kind, prefer_order=True, trace=False):
                 mem = int(sig.sum())
                 if trace:
                     # the data of an entry ends with the instances that executed in the run that produced it
-                    tr = decode_trace(arr[len(names)])
-                    data.append(tr if tr is not None else [-88])
+                    # ... and with the detector settings that run saw
+                    data += extras(arr, len(names), trace)
                 if aux_bad:
                     data, mem = None, -2
             cells.append(dict(label=label, data=data, mem=mem))
@@ -145,7 +167,13 @@ def build(case, with_dask, out_dir=None):
         # others are decoys: switched off (they must never execute) or on (order of execution).  With `pipe` the
         # detector has one more column: the execution trace
         plan = case.get("pipe")
-        det = pyx.make_detector(rows=1, cols=n + (1 if plan else 0))
+        st = case.get("det") if plan else None
+        if st:
+            det = pyx.make_detector(rows=1, cols=n + 2, pre_amplification=float(st[0]), full_well_capacity=int(st[1]),
+                                    adc_bit_resolution=int(st[2]), pixel_vert_size=float(st[4]), pixel_horz_size=float(st[5]))
+            det.geometry.total_thickness = float(st[3])
+        else:
+            det = pyx.make_detector(rows=1, cols=n + (1 if plan else 0))
         if plan is None:
             plan = [[j, True, 1] for j in sorted({j for j, _ in case["layout"]})]
         groups = {}
@@ -215,7 +243,7 @@ def run_one(case, with_dask, sched=None, out_dir=None):
     vp.reset()
     names = names_of(case)
     res = {}
-    trace = bool(case.get("pipe")) and case["kind"] == "encs"
+    trace = (0 if not case.get("pipe") or case["kind"] != "encs" else 2 if case.get("det") else 1)
     pool = None
     try:
         det, pipe, obs = build(case, with_dask, out_dir)
@@ -246,11 +274,12 @@ def run_one(case, with_dask, sched=None, out_dir=None):
             if trace and all(c.get("data") for c in cells):
                 # with an execution trace: every entry says which instances ran for it; the metadata run works on
                 # the caller's processor (on its unpickled copy when the caller's objects went through pickle)
-                expected = sum(len(c["data"][-1]) for c in cells) + (len(cells[0]["data"][-1]) if sched.get("pre") else nmod)
+                tr = [c["data"][len(names)] for c in cells]
+                expected = sum(len(t) for t in tr) + (len(tr[0]) if sched.get("pre") else nmod)
             res["executions"] = vp.EXEC["n"]
             cells[0]["mem"] += abs(vp.EXEC["n"] - expected)
         if out_dir is not None:
-            res["files"] = read_files(out_dir, case["kind"], len(names) if trace else None)
+            res["files"] = read_files(out_dir, case["kind"], len(names) if trace else None, trace)
     except Exception as ex:  # noqa: BLE001
         res = dict(raised=type(ex).__name__, msg=str(ex)[:200])
     finally:
@@ -285,7 +314,7 @@ def sched_config(sched):
     return cfg, pool
 
 
-def read_files(out_dir, kind="enc", ntrace=None):
+def read_files(out_dir, kind="enc", ntrace=None, trace=1):
     import verif_probes_c07 as vp
 
     def dec(a):
@@ -295,8 +324,7 @@ def read_files(out_dir, kind="enc", ntrace=None):
                 d = vp.decode(int(x)) if not np.isnan(x) else None
                 out.append(d[0] if d is not None and len(d) == 1 else -88)
             if ntrace is not None:
-                tr = decode_trace(a[ntrace]) if a.size == ntrace + 1 else None
-                out.append(tr if tr is not None else [-88])
+                out += extras(a, ntrace, trace) if a.size == ntrace + trace else [[-88]] * trace
             return out
         return vp.decode(int(a[0])) if a.size and np.all(a == a[0]) else None
 
